@@ -326,6 +326,9 @@ func runC15(w *World, r *Report) {
 	// a vertex the ledger rejects leaves no reservation behind (the ledger side of "a rejected request changes nothing")
 	rollbackReservation(w, r, "rejected-admission-leaves-no-index-entry")
 
+	// a value that a branch of the function found to be nil is not dereferenced on a path from that branch
+	nilCheckedThenUsed(w, r, "nil-checked-then-used", fns)
+
 	// shared tables are only touched under their lock (an unsynchronised map access aborts the process)
 	tablesUnderLock(w, r, "shared-table-under-lock")
 
@@ -383,4 +386,97 @@ func runC15(w *World, r *Report) {
 		}
 	}
 	r.Extra["D2_sites"] = nD2
+}
+
+
+// nilCheckedThenUsed (a contradiction rule): the function itself tests v against nil, so it believes v can be nil; a
+// dereference of the very same value — a method call on the interface, a field access or load through the pointer —
+// that is reachable from the edge on which the test found it nil, without passing the definition of v again, panics on
+// that path. The servers have no recovery interceptor: the panic ends the process.
+func nilCheckedThenUsed(w *World, r *Report, rule string, fns []*ssa.Function) {
+	r.rule(rule, "in the wire-facing packages no interface method call / pointer dereference of a value is reachable from the branch edge on which the same function found that very value nil (e.g. err.Error() on a path where err == nil)", 1)
+	nTests, nBad := 0, 0
+	for _, fn := range fns {
+		// values tested against nil, with the edges on which they are nil
+		nilEdges := map[ssa.Value][]Edge{}
+		for _, b := range fn.Blocks {
+			for i := range b.Succs {
+				e := Edge{b, i}
+				for _, f := range edgeFacts(e) {
+					if f.kind == fIsNil && f.x != nil {
+						if _, isConst := f.x.(*ssa.Const); isConst {
+							continue
+						}
+						nilEdges[f.x] = append(nilEdges[f.x], e)
+					}
+				}
+			}
+		}
+		if len(nilEdges) == 0 {
+			continue
+		}
+		derefOf := func(in ssa.Instruction) ssa.Value {
+			switch x := in.(type) {
+			case ssa.CallInstruction:
+				if x.Common().IsInvoke() {
+					return x.Common().Value
+				}
+			case *ssa.FieldAddr:
+				return x.X
+			case *ssa.Field:
+				return nil
+			case *ssa.UnOp:
+				if x.Op == token.MUL {
+					if _, isPtr := x.X.Type().Underlying().(*types.Pointer); isPtr {
+						if _, isAlloc := x.X.(*ssa.Alloc); !isAlloc {
+							if _, isFA := x.X.(*ssa.FieldAddr); !isFA {
+								if _, isIA := x.X.(*ssa.IndexAddr); !isIA {
+									if _, isG := x.X.(*ssa.Global); !isG {
+										if _, isFV := x.X.(*ssa.FreeVar); !isFV {
+											return x.X
+										}
+									}
+								}
+							}
+						}
+					}
+				}
+			}
+			return nil
+		}
+		var vals []ssa.Value
+		for v := range nilEdges {
+			vals = append(vals, v)
+		}
+		sort.Slice(vals, func(i, j int) bool { return vals[i].Pos() < vals[j].Pos() || vals[i].Pos() == vals[j].Pos() && vals[i].Name() < vals[j].Name() })
+		for _, v := range vals {
+			nTests++
+			def, _ := v.(ssa.Instruction)
+			var hit ssa.Instruction
+			for _, e := range nilEdges[v] {
+				walkFrom(nil, e.To(), nil, func(in ssa.Instruction) bool {
+					if hit != nil {
+						return true
+					}
+					if def != nil && in == def {
+						return true // a new value of v from here on
+					}
+					if dv := derefOf(in); dv != nil && dv == v {
+						hit = in
+						return true
+					}
+					return false
+				})
+			}
+			if hit != nil {
+				nBad++
+				r.bad(rule, shortFn(fn)+"/"+pathOf(v), lineOf(w, hit), "a value found nil is not dereferenced on the path from that finding",
+					fmt.Sprintf("%s is tested against nil in %s and dereferenced at %s on a path from the edge where it is nil: that path panics", pathOf(v), shortFn(fn), lineOf(w, hit)))
+			}
+		}
+	}
+	if nBad == 0 {
+		r.ok(rule, "all", "-", fmt.Sprintf("%d nil-tested values examined, none dereferenced on its nil path", nTests))
+	}
+	r.Extra["nil_tested_values"] = nTests
 }
